@@ -65,7 +65,7 @@ def model_strategy(draw, tier, linked=True):
     initial = draw(st.lists(init, min_size=1, max_size=8 if tier == "quick" else 12))
     return {"n": n, "part": part, "lat": list(lat), "win": win, "handlers": handlers, "initial": initial,
             "fuel": draw(st.sampled_from([2, 3, 3, 4])),
-            "end": draw(st.sampled_from([None, None, "w3", "w5+1", "w8-1", "w30", "f3.3", "f7.4", "f2.25", "f12.45"])),   # f: fractional number of windows
+            "end": draw(st.sampled_from([None, None, "w3", "w5+1", "w8-1", "w30", "f3.3", "f7.4", "f2.25", "f12.45", "m0.3", "m0.45", "m1.3"])),   # f: fractional number of windows; m: that far past the window of the last initial event
             "workers": draw(st.sampled_from([1, 0])), "linked": linked,
             "srcbits": draw(st.sampled_from([0, 0, 0, 1, 2, 3, 5, 6, 63])),
             # which ordered pairs of partitions are linked: every pair, a one-way chain p0->p1->p2.., everything into p0 only
@@ -238,6 +238,12 @@ def end_ns_of(case):
     body = e[1:]
     if e[0] == "f":
         return int(float(body) * wns)
+    if e[0] == "m":
+        widx = wmax = 0
+        for ie in case.get("initial", []):
+            widx += ie.get("gap", 0)
+            wmax = max(wmax, ie["w"] + widx)
+        return int((wmax + float(body)) * wns)
     if "+" in body:
         a, b = body.split("+")
         return int(a) * wns + int(b)
